@@ -46,7 +46,7 @@ func (b *RetriableBatcher) Out(data *WorkerData, batch *Batch) {
 		Multiplier:          b.backoffOpts.Multiplier,
 		RandomizationFactor: 0.5,
 		MaxInterval:         backoff.DefaultMaxInterval,
-		MaxElapsedTime:      backoff.DefaultMaxElapsedTime,
+		MaxElapsedTime:      0, // never stop by elapsed time: the number of retries is limited by AttemptNum only
 		Stop:                backoff.Stop,
 		Clock:               backoff.SystemClock,
 	}
